@@ -75,6 +75,7 @@ def main(ck, tier, w):
             jobs.append((coin, k))
         jobs.append((coin, -1))         # text payloads, every callback with -vv
         jobs.append((coin, -2))         # template-shaped scripts around data pushes of any length
+        jobs.append((coin, -3))         # pushes announcing up to 4 GiB, under an address-space limit
     texts = text_scripts()
     looks = []
     lr = random.Random('%d-c14-looks' % seed)
@@ -94,7 +95,12 @@ def main(ck, tier, w):
 
         def txs_fn(h, c):
             txs = [btc.coinbase(h, None, outs=[{'val': 50 * 10 ** 8, 'spk': btc.p2pkh(r0.randbytes(20))}])]
-            if h >= 1 and k == -2:
+            if h >= 1 and k == -3:
+                huge = [b'\x4e\xff\xff\xff\xff\x00', b'\x6a\x4e\xff\xff\xff\x7f', b'\x4e\x00\x00\x00\x80' + b'x' * 30, b'\x76\xa9\x4e\xfe\xff\xff\xff' + b'y' * 20 + b'\x88\xac',
+                        b'\x4d\xff\xff', b'\x00\x4e\xff\xff\xff\xff', b'\x51\x4e\x00\x00\x00\x40' + b'z' * 33 + b'\x51\xae']
+                txs.append({'ver': 1, 'ins': [{'txid': r0.randbytes(32), 'idx': 1, 'sig': huge[h % len(huge)], 'seq': 5, 'wit': [huge[(h + 1) % len(huge)]]}],
+                            'outs': [{'val': 100 + n, 'spk': x} for n, x in enumerate(huge)] + [{'val': 5, 'spk': btc.p2pkh(r0.randbytes(20))}], 'lock': h})
+            elif h >= 1 and k == -2:
                 txs.append({'ver': 1, 'ins': [{'txid': r0.randbytes(32), 'idx': 1, 'sig': b'\x01\x01', 'seq': 5}],
                             'outs': [{'val': 100 + n, 'spk': x} for n, x in enumerate(looks[h - 1::3])] + [{'val': 5, 'spk': btc.p2pkh(r0.randbytes(20))}], 'lock': h})
             elif h >= 1 and k == -1:
@@ -117,7 +123,8 @@ def main(ck, tier, w):
         probs = []
         last = None
         for cb in cbs:
-            r = run.run_parser(d, cb, dump=w.mk('out') if cb in cbs[:3] else None, coin=coin, timeout=120, verbose=(k + len(cb)) % 3 if k != -1 else 2)
+            r = run.run_parser(d, cb, dump=w.mk('out') if cb in cbs[:3] else None, coin=coin, timeout=120, verbose=(k + len(cb)) % 3 if k != -1 else 2,
+                               aslimit=3 * 2 ** 30 if k == -3 else None, threads=2 if k == -3 else None)
             last = r
             if r.rc != 0:
                 probs.append('%s: exit status %d: %s' % (cb, r.rc, r.stderr[-300:]))
